@@ -35,15 +35,26 @@ def binder_counts(piece, fname, fs):
             return None
         toks_ = piece.sf.toks
         src = piece.sf.text[toks_[fn.k0].start:toks_[fn.k1].end]
-        texts = [fs.sig or "", fs.body_start or ""] + [str(v) for v in (fs.loops or {}).values()] \
+        # (the texts placed inside the body: a name in `requires` / `ensures` denotes a parameter or the result whatever the body binds)
+        texts = [fs.body_start or ""] + [str(v) for v in (fs.loops or {}).values()] \
             + [str(a_[3]) for a_ in (fs.at or []) if len(a_) > 3]
-        used = set()
+        used, own = set(), set()
         for t_ in texts:
             t_ = re.sub(r"//[^\n]*", "", t_)
             t_ = re.sub(r'"(?:[^"\\]|\\.)*"', '""', t_)
             for w_ in re.findall(r"(?<![\w.:$])([a-z_]\w*)\b(?!\s*(?:::|!|\())", t_):
                 if w_ not in _CONTRACT_KW and not w_.endswith("__") and w_ != "_":
                     used.add(w_)
+            # names the contract text binds itself: quantified variables, closure parameters, `let`, `matches P(x)`, spec match arms
+            for m_ in re.finditer(r"\|([^|]*)\|", t_):
+                own |= set(re.findall(r"([a-z_]\w*)\s*(?::|,|$)", m_.group(1)))
+            own |= set(re.findall(r"\blet\s+(?:ghost\s+|tracked\s+)?(?:mut\s+)?\(?([a-z_]\w*)", t_))
+            for m_ in re.finditer(r"\b(?:matches|let|if let)\s+([A-Za-z_][\w:]*\s*[({][^=;]*?[)}])\s*(?:=|==>|&&|\)|,|\{)", t_):
+                own |= set(re.findall(r"\b([a-z_]\w*)\b", m_.group(1)))
+            for m_ in re.finditer(r"\b[A-Z]\w*\s*\(([^()]*)\)\s*=>", t_):
+                own |= set(re.findall(r"\b([a-z_]\w*)\b", m_.group(1)))
+        used -= own
+        used.discard(fs.ret or "")
         ts = expand_shorthand(lex(src))
         r_ = Resolver(ts)
         r_.run()
